@@ -1179,3 +1179,90 @@ Lemma loop_witness_facts :
   snd (remove_top noex_n noex_p false false 4 loop_witness [nm 3]) = Err EFuel /\
   snd (remove_top noex_n noex_p false false 30 loop_witness [nm 3]) = Err EFuel.
 Proof. vm_compute. repeat split; reflexivity. Qed.
+
+(* ---------- RemoveWithPrivileges: the escalation path, ownership included ---------- *)
+
+Definition pass_confined (f : fsys -> path -> fsys * res) : Prop :=
+  forall s p, dirs_above s p -> changes_only (under p) s (fst (f s p)).
+
+Lemma remove0_pass_confined : forall c fuel, pass_confined (remove0 true c fuel).
+Proof. intros c fuel s p Hd. now apply remove0_changes_only. Qed.
+
+Lemma lookup_filter_below : forall q s x, ~ under q x ->
+  lookup (filter (fun ke => negb (is_prefix q (fst ke))) s) x = lookup s x.
+Proof.
+  intros q s x Hx. induction s as [|[k e] r IH]; simpl; [reflexivity|].
+  destruct (is_prefix q k) eqn:Ep; simpl.
+  - destruct (path_eqb k x) eqn:Ekx; [|exact IH].
+    apply path_eqb_eq in Ekx. subst k. apply is_prefix_spec in Ep. contradiction.
+  - destruct (path_eqb k x); [reflexivity | exact IH].
+Qed.
+
+Lemma force_remove_pass_confined : pass_confined force_remove.
+Proof.
+  intros s p Hd. unfold force_remove. rewrite resolve_nofollow_phys by assumption.
+  destruct p as [|c r].
+  - simpl. intros q Hq. exfalso. apply Hq. now exists q.
+  - destruct (lookup s (c :: r)); [|apply changes_only_refl].
+    intros q Hq. exact (lookup_filter_below (c :: r) s q Hq).
+Qed.
+
+(* Chown of a physical path that is not a link changes the owner of that very entry, or of nothing *)
+Lemma chown_phys : forall s o p u, dirs_above s p -> not_link (lookup s p) ->
+  forall q, q <> p -> fst (chown s o p u) q = o q.
+Proof.
+  intros s o p u Hd Hn q Hq. unfold chown. rewrite resolve_follow_phys by assumption.
+  destruct (lookup s p) eqn:E.
+  - rewrite E. simpl. unfold set_owner. now rewrite path_eqb_neq.
+  - destruct p; [rewrite E|]; reflexivity.
+Qed.
+
+Lemma privileges_confined_l : forall pass1 pass2 force me s o p,
+  pass_confined pass1 -> pass_confined pass2 -> pass_confined force -> dirs_above s p ->
+  forall q, ~ under p q ->
+    lookup (fst (fst (remove_with_privileges pass1 pass2 force true me s o p))) q = lookup s q /\
+    snd (fst (remove_with_privileges pass1 pass2 force true me s o p)) q = o q.
+Proof.
+  intros pass1 pass2 force me s o p H1 H2 H3 Hd q Hq. unfold remove_with_privileges.
+  pose proof (H1 s p Hd) as Hc1. destruct (pass1 s p) as [s1 r1]. simpl in Hc1.
+  destruct (final r1); [simpl; split; [now apply Hc1 | reflexivity]|].
+  assert (Hd1 : dirs_above s1 p) by (eapply dirs_above_preserved; [intros x Hx; exact Hx | exact Hc1 | exact Hd]).
+  assert (Hqp : q <> p) by (intros ->; apply Hq; apply under_refl).
+  assert (Ho : forall o1 rc, (if true && is_link (lstat s1 p) then (o, Ok) else chown s1 o p me) = (o1, rc) -> o1 q = o q).
+  { intros o1 rc E. rewrite lstat_phys in E by assumption. simpl in E.
+    destruct (is_link (lookup s1 p)) eqn:El; [inversion E; reflexivity|].
+    assert (Hn : not_link (lookup s1 p)) by (intros t Ht; rewrite Ht in El; discriminate).
+    pose proof (chown_phys s1 o p me Hd1 Hn q Hqp) as Hch. rewrite E in Hch. exact Hch. }
+  destruct (if true && is_link (lstat s1 p) then (o, Ok) else chown s1 o p me) as [o1 rc] eqn:E.
+  specialize (Ho o1 rc eq_refl).
+  destruct rc.
+  - pose proof (H2 s1 p Hd1) as Hc2. destruct (pass2 s1 p) as [s2 r2]. simpl in Hc2.
+    destruct (final r2); [simpl; split; [rewrite Hc2, Hc1; auto | exact Ho]|].
+    assert (Hd2 : dirs_above s2 p) by (eapply dirs_above_preserved; [intros x Hx; exact Hx | exact Hc2 | exact Hd1]).
+    pose proof (H3 s2 p Hd2) as Hc3. destruct (force s2 p) as [s3 r3]. simpl in *.
+    split; [rewrite Hc3, Hc2, Hc1; auto | exact Ho].
+  - pose proof (H3 s1 p Hd1) as Hc3. destruct (force s1 p) as [s3 r3]. simpl in *.
+    split; [rewrite Hc3, Hc1; auto | exact Ho].
+Qed.
+
+(* before the fix: the root handed in is a link to an outside directory, the first attempt fails (say EPERM, here any
+   non-final error), and Chown re-owns the outside directory *)
+Definition priv_witness : fsys := [ ([], EDir); ([nm 1], EDir); ([nm 3], EDir); ([nm 3; nm 5], ELink [nm 1]) ].
+Definition failing_pass : fsys -> path -> fsys * res := fun s _ => (s, Err ENotEmpty).
+
+Lemma failing_pass_confined : pass_confined failing_pass.
+Proof. intros s p _. apply changes_only_refl. Qed.
+
+Lemma priv_witness_dirs_above : dirs_above priv_witness [nm 3; nm 5].
+Proof.
+  intros a b H Hb. destruct a as [|x [|y a']]; [reflexivity | |].
+  - simpl in H. inversion H; subst. reflexivity.
+  - exfalso. destruct a'; destruct b; simpl in H; try discriminate; congruence.
+Qed.
+
+Lemma priv_witness_facts :
+  snd (fst (remove_with_privileges failing_pass failing_pass force_remove false 0%Z priv_witness (fun _ => 4242%Z) [nm 3; nm 5])) [nm 1] = 0%Z /\
+  snd (fst (remove_with_privileges failing_pass failing_pass force_remove true 0%Z priv_witness (fun _ => 4242%Z) [nm 3; nm 5])) [nm 1] = 4242%Z /\
+  lookup (fst (fst (remove_with_privileges failing_pass failing_pass force_remove true 0%Z priv_witness (fun _ => 4242%Z) [nm 3; nm 5]))) [nm 3; nm 5] = None /\
+  lookup (fst (fst (remove_with_privileges failing_pass failing_pass force_remove true 0%Z priv_witness (fun _ => 4242%Z) [nm 3; nm 5]))) [nm 1] = Some EDir.
+Proof. vm_compute. repeat split; reflexivity. Qed.
